@@ -655,6 +655,20 @@ theorem ofBits64_integer (m k : Nat) (hm1 : 2 ^ 52 ≤ m) (hm2 : m < 2 ^ 53) (hk
 
 
 
+/-- binary32: `m · 2^k` with `2^23 ≤ m < 2^24` decodes to exactly that integer, so the single-floats
+    from 2^24 on are `2^k` apart: `2^24 + 1` lies strictly between two adjacent single-floats (the
+    float-coupled sweep of the harness compares exactly such integers with the floats around them) -/
+theorem ofBits32_integer (m k : Nat) (hm1 : 2 ^ 23 ≤ m) (hm2 : m < 2 ^ 24) (hk : k + 150 < 255) :
+    ofBits32 ((k + 150) * 2 ^ 23 + (m - 2 ^ 23)) = some ((m : Rat) * 2 ^ k) := by
+  have := ofBits32_fields 0 (k + 150) (m - 2 ^ 23) (by omega) hk (by norm_num at hm1 hm2 ⊢; omega)
+  simp only [Nat.zero_mul, Nat.zero_add] at this
+  rw [this]
+  have hne : ¬ (k + 150 = 0) := by omega
+  simp only [hne, if_false]
+  have e1 : 2 ^ 23 + (m - 2 ^ 23) = m := by omega
+  rw [e1, pow2_spec]
+  simp
+
 /-! ## non-vacuity: concrete instances meeting the hypotheses above -/
 
 example : floorDiv 7 (-2) = .ok (-4, -1) := by decide +kernel
@@ -674,6 +688,7 @@ example : ofBits64 0x3FE0000000000000 = some (1 / 2) := by decide +kernel
 example : ofBits64 0x7FF0000000000000 = none := by decide +kernel
 example : ofBits32 0x5F000000 = some 9223372036854775808 := by decide +kernel
 example : ofBits32 0x3F800000 = some 1 := by decide +kernel
+example : ofBits32 0x4B800000 = some 16777216 ∧ ofBits32 0x4B800001 = some 16777218 ∧ lt 16777216 16777217 = true ∧ lt 16777217 16777218 = true := by decide +kernel
 example : truncDiv (-7) 2 = .ok (-3, -1) ∧ roundDiv 5 (-2) = .ok (-2, 1) ∧ ceilDiv 7 (-2) = .ok (-3, 1) := by decide +kernel
 example : modR (-7) 2 = .ok 1 ∧ remR (-7) 2 = .ok (-1) ∧ modR (1/2) (1/3) = .ok (1/6) := by decide +kernel
 example : gcdAll [12, -18, 30] = 6 ∧ lcmAll [4, -6, 10] = 60 := by decide +kernel
